@@ -290,6 +290,22 @@ func TestC17ReadBack(t *testing.T) {
 				soft, wrapped = ns, nw
 				model = map[string]any{"id": ""}
 			},
+			"Equal": func(t *rapid.T) {
+				// The equality helpers only read: whatever they answer, every
+				// field still reads as the value most recently set.
+				history = append(history, "Equal")
+
+				if p := oracle.Try(func() {
+					if !jsonapi.Equal(soft, soft) || !jsonapi.EqualStrict(wrapped, wrapped) {
+						t.Fatalf("C17 violated: equality is not reflexive\ntype: %s\nhistory: %s", ts, strings.Join(history, "; "))
+					}
+
+					jsonapi.Equal(soft, wrapped)
+					jsonapi.EqualStrict(wrapped, soft)
+				}); p != nil {
+					t.Fatalf("C17 violated: equality helper %s\ntype: %s\nhistory: %s", p, ts, strings.Join(history, "; "))
+				}
+			},
 			"": func(t *rapid.T) { check() },
 		})
 
